@@ -88,66 +88,6 @@ def r1(ctx, eff):
         ctx.floor("R1", n_w, 2, "write events in %s" % name)
 
 
-def r2(ctx, eff):
-    """delete(): for a string id, a Feature and a mixed list the statements executed, with their bound values, are exactly one
-    DELETE on features and one on relations per element."""
-    from ..absint import Sym, Opaque
-    f = require_func(ctx, "interface.FeatureDB.delete")
-    F = lambda: Opaque("F", "Feature")
-    for label, feats, ids in (("a string id", "ID1", ["ID1"]), ("a Feature", F(), ["F.id"]), ("a list of a Feature and an id", [F(), "ID2"], ["F.id", "ID2"])):
-        for t in _traces(ctx, f, {"features": feats, "make_backup": False}, _self(Sym("dbfn", "str", True))):
-            ex = t.executes()
-            per = {}
-            other = []
-            for e in ex:
-                text = e[1] if isinstance(e[1], str) else str(e[1])
-                try:
-                    st = S.parse(text)
-                except S.SQLError:
-                    other.append(" ".join(text.split())[:40])
-                    continue
-                vals = [getattr(x, "name", x) for x in (e[2] if isinstance(e[2], (list, tuple)) else [e[2]])]
-                if isinstance(e[2], dict):
-                    vals = [getattr(x, "name", x) for x in e[2].values()]
-                n_ph = len(S.placeholders(st))
-                if st.verb != "DELETE" or len(set(vals)) != 1 or (not isinstance(e[2], dict) and len(vals) != n_ph):
-                    other.append("%s %s %s" % (st.verb, getattr(st, "table", "?"), vals))
-                    continue
-                per.setdefault(vals[0], []).append(st)
-            ctx.ob("R2", not other, "delete removes nothing else (no further statement)", func=f, sig="delete(%s): other statements %s" % (label, other))
-            ctx.ob("R2", sorted(per, key=str) == sorted(ids, key=str), "the DELETEs are bound to the id of each element (a Feature is replaced by its id)", func=f,
-                   sig="delete(%s): ids deleted %s" % (label, sorted(per, key=str)))
-            for i_, sts in per.items():
-                tabs = sorted(st.table.lower() for st in sts)
-                ctx.ob("R2", tabs == ["features", "relations"], "delete issues one DELETE on features and one on relations per element", func=f,
-                       sig="delete(%s): %s -> %s" % (label, i_, tabs))
-                for st in sts:
-                    w = st.where
-                    if st.table.lower() == "features":
-                        ok = w is not None and w[0] == "cmp" and w[1] in ("=", "==") and {w[2][0], w[3][0]} == {"col", "param"} and (w[2] if w[2][0] == "col" else w[3])[2].lower() == "id"
-                        ctx.ob("R2", ok, "the feature row is removed by exact id", func=f, sig="DELETE FROM features WHERE %s" % S.show(w))
-                    elif st.table.lower() == "relations":
-                        cols = set()
-                        ok = False
-                        if w is not None and w[0] == "or" and len(w[1]) == 2 and all(x[0] == "cmp" and x[1] in ("=", "==") for x in w[1]):
-                            for x in w[1]:
-                                col = x[2] if x[2][0] == "col" else x[3]
-                                oth = x[3] if x[2][0] == "col" else x[2]
-                                if col[0] == "col" and oth[0] == "param":
-                                    cols.add(col[2].lower())
-                            ok = cols == {"parent", "child"}
-                        elif w is not None and w[0] == "in" and w[1][0] == "param" and isinstance(w[2], list):
-                            cols = {x[2].lower() for x in w[2] if x[0] == "col"}
-                            ok = cols == {"parent", "child"}
-                        ctx.ob("R2", ok, "every relation naming the feature as parent or as child is removed", func=f, sig="DELETE FROM relations WHERE %s" % S.show(w))
-            commits = [e for e in t.events if e[0] == "call-opaque" and e[2] == "commit"]
-            ctx.ob("R2", bool(commits) and t.result[0] == "return", "the deletion is committed", func=f, sig="delete(%s): %d commit(s)" % (label, len(commits)), nontrivial=False)
-    others = [e for e in eff.transitive(f.qual) if e[1] == "SQL" and e[2] == "DELETE" and e[0] != f.qual and not e[0].startswith(f.qual)]
-    deep = [e for e in others if e[0] not in {g.qual for g in __import__("gffsa.util", fromlist=["closure"]).closure(ctx, f)}]
-    ctx.ob("R2", not deep, "delete removes nothing else (no further DELETE in its call closure)", func=f,
-           sig="no other DELETE reachable" if not deep else "DELETE on %s reachable via %s" % (deep[0][3], deep[0][0]))
-
-
 def r3_r4(ctx, eff):
     from ..absint import Sym, Opaque
     f = require_func(ctx, "interface.FeatureDB.update")
@@ -180,11 +120,7 @@ def r3_r4(ctx, eff):
                 ctx.ob("R4", kw.get("dialect") == DIALECT, "update imports with the database's own dialect", func=f, sig="importer(dialect=%r)" % (kw.get("dialect"),), nontrivial=False)
                 okdata = isinstance(kw.get("data"), Opaque) and ("Iterator" in kw.get("data").name or "DataIterator" in kw.get("data").name)
                 ctx.ob("R4", okdata, "the importer reads the iterator built from `data`", func=f, sig="importer(data=%r)" % (kw.get("data"),), nontrivial=False)
-            order = [c for c in calls if c in ("_populate_from_lines", "_update_relations", "_finalize")]
-            ctx.ob("R4", order == ["_populate_from_lines", "_update_relations", "_finalize"],
-                   "update = populate, then relations, then finalize (which persists counters, directives, indexes)", func=f,
-                   sig="update driver order populate -> relations -> finalize" if order == ["_populate_from_lines", "_update_relations", "_finalize"] else
-                   "update driver order %s" % order)
+            # populate -> relations -> finalize: decided on the evaluated history (relations two levels deep, counters persisted)
     ctx.floor("R3", n_ctor, 2, "importer constructions in update")
     # the importer keeps the given counter object itself
     init = require_func(ctx, "create._DBCreator.__init__")
@@ -204,34 +140,7 @@ def r3_r4(ctx, eff):
                 import collections as _c
                 ok = final is not None and not (isinstance(final, Opaque) and final.name == "GIVEN") and (isinstance(final, _c.defaultdict) or "defaultdict" in repr(final))
                 ctx.ob("R3", ok, "...or fresh counters when none is given", func=init, sig="%s: self._autoincrements := %r" % (label, final), nontrivial=False)
-    fin = require_func(ctx, "create._DBCreator._finalize")
-    from ..util import closure
-    from ..flow import Flow, show
-    pool = closure(ctx, fin)
-    fl = Flow(ctx, pool, rows=False)
-    sites = [s for s in execute_sites(ctx, pool) if s.stmts and s.stmts[0].verb == "INSERT" and s.stmts[0].table.lower() == "autoincrements"]
-    ctx.floor("R3", len(sites), 1, "counter write-back statements")
-    for s in sites:
-        pt = fl.terms(s.params, s.func) if s.params is not None else set()
-        src = {("call", "items", ("attr", ("self",), "_autoincrements"), ())}
-        okp = bool(pt) and (pt == src or all(t[0] == "op" and t[1] == "listcomp" for t in pt) or all(show(t).startswith("self._autoincrements.items") for t in pt))
-        ok = s.stmts[0].or_clause == "replace" and s.method == "executemany" and okp
-        ctx.ob("R3", ok, "every counter is written back with INSERT OR REPLACE", node=s.call, func=s.func,
-               sig="counter write-back: INSERT%s, %s" % (" OR " + s.stmts[0].or_clause.upper() if s.stmts[0].or_clause else "", ", ".join(sorted(show(t) for t in pt))))
-    dbi = require_func(ctx, "interface.FeatureDB.__init__")
-    pool = closure(ctx, dbi)
-    sel = [s for s in execute_sites(ctx, pool) if s.stmts and s.stmts[0].verb == "SELECT" and s.stmts[0].tables() == ["autoincrements"]]
-    ctx.floor("R3", len(sel), 1, "counter read-back statements")
-    cols = [e[2].lower() for e, _ in sel[0].stmts[0].cols if e[0] == "col"]
-    fl2 = Flow(ctx, pool)
-    asg = [(g, n) for g in pool for n in ast.walk(g.node) if isinstance(n, ast.Assign) and any(isinstance(t, ast.Attribute) and t.attr == "_autoincrements" for t in n.targets)]
-    ok = cols == ["base", "n"] and bool(asg)
-    shown = None
-    for g, n in asg:
-        ts = fl2.terms(n.value, g)
-        shown = ", ".join(sorted(show(t) for t in ts))
-        ok = ok and any("defaultdict" in show(t) for t in ts)
-    ctx.ob("R3", ok, "opening a database reloads the counters (base -> n)", func=dbi, sig="counters reloaded from %s as %s" % (cols, shown))
+    # counters written back and reloaded: decided on the evaluated history (r_history: table, open object, reopened object)
 
 
 def r6(ctx, sch):
@@ -302,18 +211,42 @@ def r_history(ctx):
     model_r.add(("t2", "p2", 2))
     compare("R6", "add_relation(Feature t2, Feature p2, 2)", fa, "Feature arguments contribute their ids")
     # ---- delete by id, by Feature, by list
-    for what, arg, gone in (("delete('t1')", "t1", ["t1"]), ("delete(Feature p2)", C, ["p2"]), ("delete(['e3', 'o1'])", ["e3", "o1"], ["e3", "o1"])):
+    from ..absint import StreamVal
+    for what, arg, gone in (("delete('t1')", "t1", ["t1"]), ("delete(Feature p2)", C, ["p2"]), ("delete(['e3', 'o1'])", ["e3", "o1"], ["e3", "o1"]),
+                            ("delete(a one-shot generator of 'e1', 'e5')", StreamVal(["e1", "e5"], "ids"), ["e1", "e5"])):
         t = step("interface.FeatureDB.delete", features=arg, make_backup=False)
         for g in gone:
             if g in model_f:
                 model_f.remove(g)
             model_r = {r for r in model_r if r[0] != g and r[1] != g}
         compare("R2", what, fd, "delete removes the feature and every relation mentioning it, and nothing else")
+    ctx.ob("R2", conn.commits >= 1, "update and delete commit what they wrote", func=fd, sig="%d commit(s) on the connection" % conn.commits, nontrivial=False)
+    # ---- close / reopen: the counters come back from the table
+    it2, me2, conn2, t_open = scen.open_feature_db(ctx, db)
+    if scen.returned(ctx, t_open, "FeatureDB(dbfn) after the history", func=fu, rule="R3"):
+        c2 = me2.attrs.get("_autoincrements")
+        got = dict(c2) if hasattr(c2, "items") else c2
+        ctx.ob("R3", isinstance(got, dict) and got.get("region") == 2, "reopening the database reloads the counters (region -> 2)", func=fu, sig="counters after reopening: %s" % (got,))
+        it, me, conn = it2, me2, conn2
     # ---- after the deletions an unnamed feature still gets a fresh key
     t = step("interface.FeatureDB.update", data=[scen.feature("N4", "region", 7, 8, {"Note": ["third"]}, strand=".")], make_backup=False)
     gf, _gr = state()
     ctx.ob("R3", "region_3" in gf and gf.count("region_3") == 1, "keys handed out earlier are never handed out again (the third unnamed region is region_3)", func=fu,
            sig="third unnamed region stored: %s" % [x for x in gf if str(x).startswith("region")])
+    # ---- '<key>_n' keys of create_unique are not recycled either: g1_1, g1_2, delete g1_2, next is g1_3
+    dup = lambda nm, s_: scen.feature(nm, "gene", s_, s_ + 5, {"ID": ["g1"], "note": [nm]})
+    handed = []
+    for nm, s_ in (("U1", 2000), ("U2", 3000)):
+        f_ = dup(nm, s_)
+        t = step("interface.FeatureDB.update", data=[f_], make_backup=False, merge_strategy="create_unique")
+        handed.append(f_.attrs.get("id"))
+    t = step("interface.FeatureDB.delete", features=handed[-1], make_backup=False)
+    f_ = dup("U3", 4000)
+    t = step("interface.FeatureDB.update", data=[f_], make_backup=False, merge_strategy="create_unique")
+    fresh = f_.attrs.get("id")
+    ok = handed == ["g1_1", "g1_2"] and fresh == "g1_3"
+    ctx.ob("R3", ok, "'<key>_n' keys continue their numbering across updates and a deletion: a key handed out earlier is never handed out again", func=fu,
+           sig="create_unique keys %s, then (after deleting the last) %s" % (handed, fresh))
 
 
 def check(ctx):
@@ -327,7 +260,6 @@ def check(ctx):
     eff = Effects(ctx)
     sch = schema(ctx)
     r1(ctx, eff)
-    r2(ctx, eff)
     r3_r4(ctx, eff)
     from . import c02
     n0 = len(ctx.obs)
